@@ -1,0 +1,11 @@
+//go:build verif
+
+// Contracts for the root package (connection, handler, handler pools), read by
+// /verif/engine (govc). Comment-only.
+package simplefixgo
+
+//@ global[C10,C19] ErrNotEnoughMessages = errconst(1)
+//@ global[C10,C19] ErrInvalidBoundaries = errconst(2)
+//@ global[C10,C19] ErrInvalidSequence = errconst(3)
+//@ global[C04,C19] ErrConnClosed = errconst(4)
+//@ global[C19] ErrHandleNotFound = errconst(5)
